@@ -12,6 +12,7 @@
  *   fmt <total> <level> <subject_hex|null> <msg_len> <date_format> <shape>
  *   init <a|b|n> <level>          a: pipeline+foreground  b: pipeline+failing channel  n: no-alloc logger
  *   setlevel <a|b|n> <level>
+ *   subjects <slot> <name_hex>+  register a subject list (ids slot*1024 ..) as an exact-size heap array; slot 0 = declare the library's own
  *   wfail <k>* | wfail -         the recording writer's write() fails on these call ordinals (counted from the case start)
  *   pipe <a|b> <level> <subject_id> <subject_hex> <msg_len> <shape> <macro|cond>
  *   noalloc <level> <subject_id> <subject_hex> <msg_len> <shape> <macro|cond>
@@ -57,17 +58,49 @@ int __wrap_clock_gettime(clockid_t id, struct timespec *ts) {
     return __real_clock_gettime(id, ts);
 }
 
-/* ---- harness log subjects (package slot 14) ---- */
-#define H_SUBJECT_BASE (14u * AWS_LOG_SUBJECT_STRIDE)
-static struct aws_log_subject_info s_subjects[] = {
-    {H_SUBJECT_BASE + 0, "", "empty name"},
-    {H_SUBJECT_BASE + 1, "s", "one byte"},
-    {H_SUBJECT_BASE + 2, "harness-subject", "15 bytes"},
-    {H_SUBJECT_BASE + 3,
-     "a-very-long-subject-name-0123456789-0123456789-0123456789-0123456789-0123456789-0123456789-0123456789",
-     "101 bytes"},
-};
-static struct aws_log_subject_info_list s_subject_list = {s_subjects, AWS_ARRAY_SIZE(s_subjects)};
+/* ---- log subject lists registered by `subjects` ops: EXACT-SIZE heap arrays, so that a read of entry [count] is a
+ * heap-buffer-overflow for ASan; slot 0 is the library's own aws-c-common list (the op only declares its names) ---- */
+#define MAX_SLOTS 64
+static struct aws_log_subject_info_list *s_lists[MAX_SLOTS];
+static void s_drop_list(size_t slot) {
+    struct aws_log_subject_info_list *l = s_lists[slot];
+    if (l) {
+        aws_unregister_log_subject_info_list(l);
+        for (size_t i = 0; i < l->count; ++i) {
+            free((void *)l->subject_list[i].subject_name);
+        }
+        free(l->subject_list);
+        free(l);
+        s_lists[slot] = NULL;
+    }
+}
+static void s_op_subjects(char **t, int n) {
+    size_t slot = hc_parse_size(t[1]);
+    size_t count = (size_t)(n - 2);
+    if (slot >= AWS_PACKAGE_SLOTS || slot >= MAX_SLOTS || count == 0) {
+        printf("bad-op\n");
+        return;
+    }
+    if (slot != 0) {
+        s_drop_list(slot);
+        struct aws_log_subject_info *arr = malloc(count * sizeof(*arr)); /* exact size: red zone right behind entry count-1 */
+        for (size_t i = 0; i < count; ++i) {
+            size_t len;
+            uint8_t *name = hc_hex_decode(t[2 + i], &len);
+            name = realloc(name, len + 1);
+            name[len] = 0;
+            arr[i].subject_id = (aws_log_subject_t)(slot * AWS_LOG_SUBJECT_STRIDE + i);
+            arr[i].subject_name = (const char *)name;
+            arr[i].subject_description = "harness subject";
+        }
+        struct aws_log_subject_info_list *l = malloc(sizeof(*l));
+        l->subject_list = arr;
+        l->count = count;
+        s_lists[slot] = l;
+        aws_register_log_subject_info_list(l);
+    }
+    printf("W subjects slot=%zu count=%zu\n", slot, count);
+}
 
 /* ---- message text: pat(len)[i] = '0' + (7 i + len) mod 75 ('%'-free, NUL-free, newline-free) ---- */
 static char *s_pattern(size_t len) {
@@ -203,6 +236,9 @@ static void s_reset(void) {
         s_have_noalloc = false;
     }
     s_rec_clear();
+    for (size_t i = 0; i < MAX_SLOTS; ++i) {
+        s_drop_list(i);
+    }
     s_nwfail = s_wcalls = s_werr = 0;
     s_frozen = false;
 }
@@ -428,6 +464,8 @@ static void *s_worker_main(void *arg) {
             break;
         }
         if (false) {
+        } else if (!strcmp(t[0], "subjects") && n >= 3) {
+            s_op_subjects(t, n);
         } else if (!strcmp(t[0], "wfail") && n >= 2 && n - 1 <= MAXFAIL) {
             s_nwfail = 0;
             for (int i = 1; i < n; ++i) {
@@ -487,7 +525,6 @@ static void *s_worker_main(void *arg) {
 
 int main(void) {
     aws_common_library_init(hc_allocator());
-    aws_register_log_subject_info_list(&s_subject_list);
     while (!g_eof) {
         if (!g_pending) {
             g_n = hc_next_line(g_t);
@@ -516,6 +553,5 @@ int main(void) {
         }
     }
     s_reset();
-    aws_unregister_log_subject_info_list(&s_subject_list);
     return 0;
 }
